@@ -4,7 +4,7 @@
 //   X <12 hex> <hex> ir jr iro pr overwrite the private members    -> "X <state>"
 //   D <n>                         n x get_uniform_random_double    -> "D <hex>..." , "G ..."
 //   I <n>                         n x get_random_integer           -> "I <dec>..." , "G ..."
-//   R                             write_restart_file + restart constructor -> "R <bytes> <words>", "T <state>"
+//   R                             write_restart_file + restart constructor -> "B <state before>", "R <bytes> <words>", "T <state after>"
 //   T                             -> "T <state>"
 // "G ok" = every value of the preceding line equals what gsl produced; otherwise the first difference.
 #include <cinttypes>
@@ -116,6 +116,7 @@ int main(int argc, char **argv) {
       else
         printf("G MISMATCH at=%ld impl=%016" PRIx64 " gsl=%016" PRIx64 "\n", bad, badi, badr);
     } else if (op == 'R') {
+      print_state("B", *g);
       {
         RestartWriter w(tmp);
         g->write_restart_file(w);
